@@ -104,7 +104,10 @@ PARTIAL += [
 # ---- group gX: composition parser model -> store model over whole histories; review rA findings on C03 ----
 LEAN_MODULES += ["CifModel.Lemmas.ParserStoreSim", "CifModel.Lemmas.ParserStoreRun", "CifModel.Lemmas.ParserStoreSimF",
                  "CifModel.Lemmas.ParserStoreRunF", "CifModel.Lemmas.ParserTraceShape", "CifModel.Props.ReviewRC03"]
-REQUIRED += ["CifModel.C03_parser_store_refines", "CifModel.C03_parse_is_store_history", "CifModel.C03_store_inv_after_parse",
+REQUIRED += ["CifModel.C03_parser_store_refines", "CifModel.C03_storeOps_total", "CifModel.C03_parser_store_refines_total",
+             "CifModel.ParserSimF.storeOps_total", "CifModel.ParserSimF.prefix_rep", "CifModel.ParserSimF.parse_leaves_rep",
+             "CifModel.ParserSimF.contAt_unique", "CifModel.ParserSimF.contAt_addFrame_inv", "CifModel.ParserSimF.contAt_addBlock_inv",
+             "CifModel.C03_parse_is_store_history", "CifModel.C03_store_inv_after_parse",
              "CifModel.C03_parser_store_refines_from_rep",
              "CifModel.C03_parser_store_refines_covered_partial", "CifModel.C03_parser_store_refines_noframes_partial",
              "CifModel.C03_parser_store_refines_from_rep_partial",
@@ -135,8 +138,9 @@ PARTIAL += [
     "sim_mkBlock / sim_mkFrame / sim_prune / sim_mkLoop / sim_addPkt / sim_setVal (set_value in its three cases) —, lifted to Store.step "
     "through C04_refines (Lemmas/ParserStoreRunF: handle tables, Rep, rep_step, run_sim; Store.step is never unfolded).  The frame-free "
     "development (ParserSim, C03_…_partial theorems) additionally proves that the trace HAS a translation (storeOps_total) and that every "
-    "intermediate state is represented (prefix_rep).  STILL PARTIAL: (i) for traces WITH save frames `storeOps … = some ops` is a "
-    "hypothesis (as in the _full statement; evaluated by the driver: sto=BADexpr never seen); (ii) pre-existing targets are covered as "
+    "intermediate state is represented (prefix_rep).  C03_storeOps_total / C03_parser_store_refines_total: the trace of EVERY parse HAS a translation "
+    "(every call finds the handle its container got: C03_calls_resolve, inversion of the creations, uniqueness of a container's path), so no "
+    "hypothesis is left for a parse into a new CIF.  STILL PARTIAL: pre-existing targets are covered as "
     "REPRESENTED worlds (C03_parser_store_refines_from_rep: from any world satisfying ParserSimF.Rep — e.g. the one an earlier parse left, "
     "ParserSim.parse_leaves_rep); no theorem builds such a world from an arbitrary consistent Cif (the driver runs cifOps(pre) ++ trace: "
     "sto=ok on every request).",
